@@ -724,8 +724,10 @@ func (a *xAnalysis) checkAccesses(s *xState, idx int) {
 		var val *Lin
 		if m.Sym != "" {
 			val = linTerm("&sym:"+m.Sym, true).Add(linConst(m.Off))
-		} else if v := s.regs[m.Base]; v != nil {
+		} else if v := s.regs[m.Base]; v != nil && m.Index == "" {
 			val = v.Add(linConst(m.Off))
+		} else if v != nil && s.regs[m.Index] != nil {
+			val = v.Add(linConst(m.Off)).Add(s.regs[m.Index].Scale(acc.Instr.Args[m.Arg].Scale))
 		}
 		if val == nil {
 			rec.status = minStatus(rec.status, 0)
